@@ -435,8 +435,37 @@ func C16(c *Ctx) {
 			continue
 		}
 		var updBlocks = map[*ssa.BasicBlock]bool{}
+		// calls of a helper that records the value unless it answers with an error (`if err := w.add(ms); err != nil`)
+		var unlessErr []*ssa.Call
 		for b := range l.Blocks {
 			for _, in := range b.Instrs {
+				if cl, ok := in.(*ssa.Call); ok {
+					// the body of the loop may be a helper (a method of the struct that holds the value map)
+					h := cl.Common().StaticCallee()
+					inScope := false
+					for _, g := range wsScope {
+						inScope = inScope || (g == h && h != bl.f)
+					}
+					if !inScope {
+						continue
+					}
+					kind, mus := c16HelperRecords(h, wsScope, []*ssa.Call{cl}, 0)
+					if kind == 0 {
+						continue
+					}
+					for _, m := range mus {
+						if why := sharedBytesVia(m.mu.Value, l, m.via, 0); why != "" {
+							c.R.Violate("C16-R3", "WriteState: each record's bytes are storage of its own", c.pos(m.mu), "the bytes recorded for one machine are a view of "+why+", which the next iteration overwrites before the transaction writes them: a batch of several machines stores one machine's state under another's id")
+						} else {
+							c.R.Discharge("C16-R3", "WriteState: each record's bytes are storage of its own", c.pos(m.mu), "the recorded value does not alias a buffer that outlives the iteration")
+						}
+					}
+					updBlocks[b] = true
+					if kind == 1 {
+						unlessErr = append(unlessErr, cl)
+					}
+					continue
+				}
 				if mu, ok := in.(*ssa.MapUpdate); ok {
 					// the bytes recorded for a machine are its own: not a view of storage that lives across iterations
 					if why := sharedBytes(mu.Value, l, 0); why != "" {
@@ -467,6 +496,25 @@ func C16(c *Ctx) {
 						}
 					}
 				}
+			}
+		}
+		// a helper that failed has not recorded: the ways on from its call under "its error is not nil" must leave the loop
+		for _, cl := range unlessErr {
+			avoid := map[*ssa.BasicBlock]bool{}
+			for _, b := range bl.f.Blocks {
+				if !l.Blocks[b] || (updBlocks[b] && b != cl.Block()) {
+					avoid[b] = true
+				}
+			}
+			delete(avoid, l.Header)
+			var facts []flow.Fact
+			for _, r := range ssau.Referrers(errResultOf(cl)) {
+				if bo, isB := r.(*ssa.BinOp); isB && (bo.Op == token.NEQ || bo.Op == token.EQL) && (ssau.IsNilConst(bo.X) || ssau.IsNilConst(bo.Y)) {
+					facts = append(facts, flow.Fact{Cond: bo, True: bo.Op == token.NEQ})
+				}
+			}
+			if flow.ReachedUnder(cl.Block(), facts, avoid)[l.Header] {
+				skips = true
 			}
 		}
 		// from the body entry, the header must be unreachable when update blocks are removed
@@ -977,6 +1025,128 @@ func isWriteIface(c *Ctx, cl *ssa.Call, writeState *ssa.Function) bool {
 	return false
 }
 
+// muVia is a map update found in a helper, with the chain of calls that leads to it from the loop.
+type muVia struct {
+	mu  *ssa.MapUpdate
+	via []*ssa.Call
+}
+
+// c16HelperRecords: does helper h (entered through the calls via) put a value into a value map that WriteState
+// made (a MakeMap, found through parameters and fields of structs built in scope)?  2: on every way through it;
+// 1: on every way that does not end in a return of a non-nil error as last result; 0: otherwise.  Also the map
+// updates found (for the check of what is recorded).
+func c16HelperRecords(h *ssa.Function, scope []*ssa.Function, via []*ssa.Call, depth int) (int, []muVia) {
+	if h == nil || h.Blocks == nil || depth > 2 {
+		return 0, nil
+	}
+	inScope := func(g *ssa.Function) bool {
+		for _, f := range scope {
+			if f == g {
+				return g != h
+			}
+		}
+		return false
+	}
+	errType := types.Universe.Lookup("error").Type()
+	// nonNilAt: the error v is known not to be nil where block b returns it
+	nonNilAt := func(v ssa.Value, b *ssa.BasicBlock) bool {
+		if !ssau.IsNilConst(v) && provablyNonNilErr(v) {
+			return true
+		}
+		for _, f := range flow.FactsAt(b) {
+			if bo, isB := f.Cond.(*ssa.BinOp); isB && (bo.Op == token.NEQ) == f.True && (bo.Op == token.NEQ || bo.Op == token.EQL) {
+				if (bo.X == v && ssau.IsNilConst(bo.Y)) || (bo.Y == v && ssau.IsNilConst(bo.X)) {
+					return true
+				}
+			}
+		}
+		return false
+	}
+	failsAt := func(b *ssa.BasicBlock) bool {
+		ret, ok := b.Instrs[len(b.Instrs)-1].(*ssa.Return)
+		if !ok || len(ret.Results) == 0 {
+			return false
+		}
+		last := ret.Results[len(ret.Results)-1]
+		return types.Identical(last.Type(), errType) && nonNilAt(last, b)
+	}
+	upd := map[*ssa.BasicBlock]bool{}
+	var mus []muVia
+	var partial []*ssa.Call
+	for _, b := range h.Blocks {
+		for _, in := range b.Instrs {
+			switch x := in.(type) {
+			case *ssa.MapUpdate:
+				ls := resolveThroughLocals(x.Map, scope)
+				all := len(ls) > 0
+				for _, l := range ls {
+					if _, isMake := l.(*ssa.MakeMap); !isMake {
+						all = false
+					}
+				}
+				if all {
+					upd[b] = true
+					mus = append(mus, muVia{x, via})
+				}
+			case *ssa.Call:
+				if g := x.Common().StaticCallee(); g != nil && inScope(g) {
+					k, sub := c16HelperRecords(g, scope, append(append([]*ssa.Call{}, via...), x), depth+1)
+					if k == 0 {
+						continue
+					}
+					mus = append(mus, sub...)
+					if k == 2 {
+						upd[b] = true
+					} else {
+						partial = append(partial, x)
+					}
+				}
+			}
+		}
+	}
+	if len(mus) == 0 {
+		return 0, nil
+	}
+	// a nested helper that records unless it fails: the ways on from its call under "its error is not nil" that do
+	// not record otherwise must end in this helper failing too
+	for _, cl := range partial {
+		var facts []flow.Fact
+		for _, r := range ssau.Referrers(errResultOf(cl)) {
+			if bo, isB := r.(*ssa.BinOp); isB && (bo.Op == token.NEQ || bo.Op == token.EQL) && (ssau.IsNilConst(bo.X) || ssau.IsNilConst(bo.Y)) {
+				facts = append(facts, flow.Fact{Cond: bo, True: bo.Op == token.NEQ})
+			}
+		}
+		ok := true
+		for b := range flow.ReachedUnder(cl.Block(), facts, upd) {
+			if _, isRet := b.Instrs[len(b.Instrs)-1].(*ssa.Return); isRet && !failsAt(b) {
+				ok = false
+			}
+		}
+		if _, isRet := cl.Block().Instrs[len(cl.Block().Instrs)-1].(*ssa.Return); isRet && !failsAt(cl.Block()) {
+			ok = false
+		}
+		if ok {
+			upd[cl.Block()] = true
+		}
+	}
+	kind := 2
+	entry := h.Blocks[0]
+	for _, b := range h.Blocks {
+		if _, isRet := b.Instrs[len(b.Instrs)-1].(*ssa.Return); !isRet || b == h.Recover {
+			continue
+		}
+		if upd[entry] || upd[b] || !flow.Reachable(entry, b, upd) {
+			continue
+		}
+		if failsAt(b) {
+			kind = 1
+		} else {
+			return 0, mus
+		}
+	}
+	return kind, mus
+}
+
 // sharedBytes: if v is (a sub-slice of) the contents of a buffer or array that is created outside loop l, a description
 // of that storage; "" otherwise.  A value that a helper of the package returns is judged inside the helper: what the
 // helper makes itself is made once per call, and its parameters are the arguments of the call.
@@ -1053,6 +1223,27 @@ func sharedBytesVia(v ssa.Value, l *flow.Loop, via []*ssa.Call, depth int) strin
 			for _, sv := range storedInto(al) {
 				if w := sharedBytesVia(sv, l, via, depth+1); w != "" {
 					return w
+				}
+			}
+			// the variable may be filled by a helper that is handed its address (`encode(ms, &js)`)
+			for _, r := range ssau.Referrers(al) {
+				cl, isCall := r.(*ssa.Call)
+				if !isCall {
+					continue
+				}
+				sc := helper(cl)
+				if sc == nil {
+					continue
+				}
+				for i, a := range cl.Common().Args {
+					if a != ssa.Value(al) || i >= len(sc.Params) {
+						continue
+					}
+					for _, sv := range storedInto(sc.Params[i]) {
+						if w := sharedBytesVia(sv, l, append(append([]*ssa.Call{}, via...), cl), depth+1); w != "" {
+							return w
+						}
+					}
 				}
 			}
 		}
